@@ -228,6 +228,45 @@ func anySexp(a any) sx.S {
 	return sx.L(sx.A("unsupported"), sx.A(fmt.Sprintf("%T", a)))
 }
 
+// dvSexp: the value tree a generated document denotes, written directly from the generator's own tree (no
+// library code involved): what ordered.DecodeYAML must return for the rendered text
+func dvSexp(d *dv, jsonForm bool) sx.S {
+	switch d.kind {
+	case 'n':
+		return sx.L(sx.A("n"))
+	case 'b':
+		return sx.L(sx.A("b"), sx.B(d.b))
+	case 'i':
+		return sx.L(sx.A("i"), sx.A(strconv.FormatInt(d.i, 10)))
+	case 'f':
+		j, s := floatTokens(d.f)
+		if _, err := strconv.ParseInt(j, 10, 64); err == nil && jsonForm {
+			return sx.L(sx.A("i"), sx.A(j)) // JSON writes an integral float without a fraction: the text denotes an integer
+		}
+		return sx.L(sx.A("f"), sx.A(j), sx.A(s))
+	case 's':
+		return sx.L(sx.A("s"), sx.A(d.s))
+	case 't':
+		// as anySexp renders a time.Time: its JSON text
+		if t, err := parseYAMLTime(d.s); err == nil {
+			return anySexp(t)
+		}
+		return sx.L(sx.A("t"), sx.A(d.s))
+	case 'l':
+		l := sx.List{sx.A("l")}
+		for _, e := range d.l {
+			l = append(l, dvSexp(e, jsonForm))
+		}
+		return l
+	default:
+		l := sx.List{sx.A("m")}
+		for _, e := range d.m {
+			l = append(l, sx.L(sx.A(e.k), dvSexp(e.v, jsonForm)))
+		}
+		return l
+	}
+}
+
 // sortedAnySexp: anySexp with the members of every mapping sorted by key
 func sortedAnySexp(a any) sx.S {
 	switch v := a.(type) {
@@ -468,7 +507,7 @@ func (g *docgen) maybeWrong(v *dv, pct int) *dv {
 }
 
 func (g *docgen) pluginSource() string {
-	return sx.Pick(g.rng, []string{"docker#v3.0.0", "my-org/thing#main", "docker-compose", "./local/plugin", "https://example.org/p.git#v1", "git@github.com:o/r.git", "github.com/buildkite-plugins/docker-buildkite-plugin#v1", "a/b/c", "ecr#v2.1.0", "x#feature/y"})
+	return sx.Pick(g.rng, []string{"docker#v3.0.0", "my-org/thing#main", "docker-compose", "./local/plugin", "https://example.org/p.git#v1", "git@github.com:o/r.git", "github.com/buildkite-plugins/docker-buildkite-plugin#v1", "a/b/c", "ecr#v2.1.0", "x#feature/y", "../sibling-plugin", "../sibling#v1", "./.buildkite/plugins/x", "./here", ".hidden/plugin", "/abs/plugin"})
 }
 
 func (g *docgen) pluginConfig() *dv {
@@ -825,4 +864,14 @@ func (g *docgen) document() *dv {
 	g.extras(m, 3)
 	g.shuffle(m)
 	return m
+}
+
+// parseYAMLTime: the timestamp spellings YAML 1.1 / yaml.v3 accept
+func parseYAMLTime(v string) (time.Time, error) {
+	for _, layout := range []string{"2006-1-2T15:4:5.999999999Z07:00", "2006-1-2t15:4:5.999999999Z07:00", "2006-1-2 15:4:5.999999999", "2006-1-2"} {
+		if t, err := time.Parse(layout, v); err == nil {
+			return t, nil
+		}
+	}
+	return time.Time{}, fmt.Errorf("not a timestamp: %q", v)
 }
